@@ -1,0 +1,113 @@
+//go:build verif
+// +build verif
+
+// Exports that let the external verification harness (/verif, property C07) drive the real
+// session.refLoop with synthetic events and read its reference counters. Compiled only with
+// -tags verif; add-only.
+
+package leveldb
+
+import (
+	"time"
+
+	"github.com/syndtr/goleveldb/leveldb/opt"
+	"github.com/syndtr/goleveldb/leveldb/storage"
+)
+
+// VerifRefLoop is a bare session whose reference loop is fed by the harness instead of by
+// version.incref/releaseNB and session.setVersion/commit.
+type VerifRefLoop struct {
+	s *session
+}
+
+// VerifNewRefLoopSession creates a bare session on stor (newSession locks the storage and starts
+// refLoop). newSession itself installs version 0, so the loop has already received the event
+// "reference version 0 with no files" when this returns.
+func VerifNewRefLoopSession(stor storage.Storage, o *opt.Options) (*VerifRefLoop, error) {
+	s, err := newSession(stor, o)
+	if err != nil {
+		return nil, err
+	}
+	return &VerifRefLoop{s: s}, nil
+}
+
+func verifDummyLevels(levels [][]int64) []tFiles {
+	out := make([]tFiles, len(levels))
+	for i, l := range levels {
+		for _, num := range l {
+			out[i] = append(out[i], &tFile{fd: storage.FileDesc{Type: storage.TypeTable, Num: num}})
+		}
+	}
+	return out
+}
+
+func verifCreated(expired bool) time.Time {
+	if expired {
+		// older than maxCachedTime from the start: the loop's age test holds on every run
+		return time.Now().Add(-maxCachedTime - time.Hour)
+	}
+	// in the future: the age test never holds during the run
+	return time.Now().Add(24 * time.Hour)
+}
+
+// Ref sends what version.incref sends on the first reference of version vid holding the tables
+// levels (dummy tFile values carrying only numbers). expired backdates the task's creation time
+// beyond maxCachedTime so that the loop's time-based conversion applies to it.
+func (r *VerifRefLoop) Ref(vid int64, levels [][]int64, expired bool) {
+	r.s.refCh <- &vTask{vid: vid, files: verifDummyLevels(levels), created: verifCreated(expired)}
+}
+
+// Rel sends what version.releaseNB sends on the last release of version vid.
+func (r *VerifRefLoop) Rel(vid int64, levels [][]int64) {
+	r.s.relCh <- &vTask{vid: vid, files: verifDummyLevels(levels), created: time.Now()}
+}
+
+// Delta sends what session.setVersion sends for the version vid being replaced.
+func (r *VerifRefLoop) Delta(vid int64, added, deleted []int64) {
+	r.s.deltaCh <- &vDelta{vid: vid, added: append([]int64(nil), added...), deleted: append([]int64(nil), deleted...)}
+}
+
+// Abandon sends what a failed session.commit sends for the version id it consumed.
+func (r *VerifRefLoop) Abandon(vid int64) {
+	r.s.abandon <- vid
+}
+
+// FileRef returns a copy of the loop's table reference counters through the session's own
+// fileRefCh. The request is served by the loop goroutine itself, after processTasks has run for
+// every event sent before, so it also synchronises with those events.
+func (r *VerifRefLoop) FileRef() map[int64]int {
+	ch := make(chan map[int64]int)
+	r.s.fileRefCh <- ch
+	return <-ch
+}
+
+// MaxCachedNumber is the loop's queue bound.
+func (r *VerifRefLoop) MaxCachedNumber() int { return maxCachedNumber }
+
+// Close stops the loop and releases the storage lock. session.close is not used: it would send a
+// release for the session's own version 0, which the synthetic stream has already released.
+func (r *VerifRefLoop) Close() {
+	close(r.s.closeC)
+	r.s.closeW.Wait()
+	r.s.tops.close()
+	r.s.release()
+}
+
+// VerifFileRefs returns the reference counters of an open DB's session.
+func VerifFileRefs(db *DB) map[int64]int {
+	ch := make(chan map[int64]int)
+	select {
+	case db.s.fileRefCh <- ch:
+		return <-ch
+	case <-db.s.closeC:
+		return nil
+	}
+}
+
+// VerifVersionID returns the id of the DB's current version (ids are consumed by every commit
+// attempt; the reference loop processes them in order).
+func VerifVersionID(db *DB) int64 {
+	v := db.s.version()
+	defer v.release()
+	return v.id
+}
